@@ -9,6 +9,8 @@
 //! the waits); while the blockers wait the ticker ticks at least once per 40 ms and the
 //! computing task gets at least a quarter of the wall time; the fed recv returns within
 //! 100 ms of the write with the byte written.
+//! Sub-run `burst` (c15burst.rs): several hundred sleepers submitted at once must all sleep
+//! together.
 
 use libc::c_int;
 use open_coroutine_core::common::now;
@@ -320,13 +322,16 @@ pub fn exec(c: &Case) -> Outcome {
 
 pub fn main(args: &Args) -> i32 {
     if let Some(p) = &args.replay {
-        let (_, _, case) = vkit::load_replay(p);
+        let (_, sub, case) = vkit::load_replay(p);
+        if sub == "burst" {
+            return vkit::replay_verdict("C15", p, &super::c15burst::exec(&serde_json::from_value(case).expect("case")));
+        }
         return vkit::replay_verdict("C15", p, &exec(&serde_json::from_value(case).expect("case")));
     }
     let mut ev = Evidence::new("C15", args, "exploration");
     ev.assume("one event loop; keep-alive time 0..3 s, min_size 0..2, max_size default or tasks + 1..5; calls enter through open_coroutine_core::syscall::* (the interposed libc symbols forward there)");
     ev.assume("timing bounds: all blockers done by longest wait + max(100 ms, half of it); ticker >= 1 tick per 40 ms; computing sibling >= 1/4 of the wall time (1/8 next to a ticker); every deviation confirmed by 2 re-executions on a responsive host");
-    ev.add(vkit::run_regress("C15", |_s, case| exec(&serde_json::from_value(case).expect("case"))));
+    ev.add(vkit::run_regress("C15", |s, case| if s == "burst" { super::c15burst::exec(&serde_json::from_value(case).expect("case")) } else { exec(&serde_json::from_value(case).expect("case")) }));
     if ev.has_violations() {
         return ev.finish();
     }
@@ -342,6 +347,19 @@ pub fn main(args: &Args) -> i32 {
         },
         strategy,
         exec,
+    ));
+    ev.add(vkit::run_prop(
+        &RunCfg {
+            property: "C15",
+            sub: "burst",
+            rule: "fresh child per case: one event loop, default worker limit; while a gate task computes on the loop thread 200..899 tasks are submitted (at once or spread over <= 40 ms), each making one hooked sleep (usleep | nanosleep) of 2.5 s; then the gate opens; non-trivial = the burst is larger than the local task queue (256)",
+            seed: args.seed,
+            cases: args.cases(10, 80),
+            shards: 5,
+            max_shrink_iters: 6,
+        },
+        super::c15burst::strategy,
+        super::c15burst::exec,
     ));
     ev.finish()
 }
